@@ -278,6 +278,11 @@ struct SmallSetEngine : EngineBase {
         E *e = make_hold(x);
         if (op.k == O_INS_C) window([&] { auto r = s.insert(*e); rit = r.first; ins = r.second; });
         else if (op.k == O_INS_M) window([&] { auto r = s.insert(std::move(*e)); rit = r.first; ins = r.second; });
+        else if (op.k == O_EMPLACE && (op.key + static_cast<int>(sz0)) % 3 == 0) {
+          // a single argument of another type that converts to the element (the element is built first, as std::set does)
+          Proto pr; pr.key = x.key; pr.pay = x.pay; pr.half = 1;
+          window([&] { auto r = s.emplace(pr); rit = r.first; ins = r.second; });
+        }
         else if (op.k == O_EMPLACE) window([&] { auto r = s.emplace(x.key, x.pay); rit = r.first; ins = r.second; });
         else if (op.k == O_INS_HINT) { has_bool = false; window([&] { rit = s.insert(op.i == 0 ? s.begin() : s.end(), *e); }); }
         else { has_bool = false; window([&] { rit = s.emplace_hint(op.i == 0 ? s.begin() : s.end(), x.key, x.pay); }); }
